@@ -329,7 +329,10 @@ fn invocation_with(w: &W, ep: Ep, amount: i128, alt: bool, n: Address, c: Addres
         ),
         Ep::ItsDeploy => {
             let md = TokenMetadata { decimal: 7, name: sstr(env, if alt { "Other" } else { "New" }), symbol: sstr(env, "NEW") };
-            (s.its.address.clone(), "deploy_interchain_token", v((n, BytesN::from_array(env, &NEW_SALT), md, 0i128, None::<Address>).into_val(env)))
+            // for odd amounts the deployment appoints the counterparty as minter: being appointed gives no say over whose name
+            // the token is deployed under
+            let minter: Option<Address> = if amount % 2 == 1 { Some(c.clone()) } else { None };
+            (s.its.address.clone(), "deploy_interchain_token", v((n, BytesN::from_array(env, &NEW_SALT), md, 0i128, minter).into_val(env)))
         }
         Ep::ItsDeployRemote => (s.its.address.clone(), "deploy_remote_interchain_token", v((n, BytesN::from_array(env, &ITS_SALT), sstr(env, "ethereum"), gas).into_val(env))),
         Ep::ItsTransfer => (
